@@ -34,6 +34,10 @@ def run(prop, path):
             rc, out, err = native.run(b, cmd)
             print('  native: replayer %s\n    -> %s' % (' '.join(cmd), out or err))
             return 1 if out.startswith('FAILS') else (0 if out.startswith('HOLDS') else 2)
+        if cmd[0] == 'sweep':
+            rc, out, err = native.run(b, cmd, timeout=900)
+            print('  native: replayer %s\n    -> %s' % (' '.join(cmd), (out or err)[-400:]))
+            return 1 if 'FAILS' in out else (0 if 'HOLDS' in out else 2)
         if cmd[0] == 'kanicex':
             from . import kanicex
             return kanicex.replay(rec, b)
